@@ -376,12 +376,13 @@ def _(c):
 
 
 def _grid_adapt(tier, rng):
-    """methods {rkf54, dopri54} x orbits {iss, molniya, gto} x tol {1e-3, 1e-5} x requested step {60, 120} s"""
+    """methods {rkf54, dopri54} x orbits {iss, molniya, gto} x tol {1e-3, 1e-5} x requested step {60, 120} s x direction {forward, backward}"""
     for m in (0, 1):
         for o in (0, 1, 2):
             for tol in (1e-3, 1e-5):
                 for st in (60.0, 120.0):
-                    yield {"method": m, "orbit": o, "tol": tol, "step": st}
+                    for back in (0, 1):
+                        yield {"method": m, "orbit": o, "tol": tol, "step": st, "back": back}
 
 
 @contract("C06", "adaptive.error", funcs=[f"{KNC}._make_step"], grid=_grid_adapt, level="bounded")
@@ -397,12 +398,13 @@ def _(c):
     prop.orbit = orb
     y = prop.orbit
     worst, over = 0.0, False
+    sgn = -1 if c.integer("back") else 1     # (backward targets are reached by stepping with the negated step)
     for _ in range(40):
-        step, y1 = prop._make_step(y, prop.step)
+        step, y1 = prop._make_step(y, sgn * prop.step)
         h = step.total_seconds()
         rr, vv = twobody.propagate(np.asarray(y[:3], dtype=float), np.asarray(y[3:], dtype=float), h, mu)
         worst = max(worst, float(np.linalg.norm(np.asarray(y1[:3], dtype=float) - rr)))
-        over = over or h > st + 1e-9 or h <= 0
+        over = over or sgn * h > st + 1e-9 or sgn * h <= 0
         y = y1
     c.ensure("local_error", worst <= 5 * tol)
     c.ensure("step_bounded", not over)
